@@ -315,6 +315,16 @@ class Run:
         self.disagreements.append({'what': what, 'case': case, 'impl': impl, 'model': model})
 
 
+def _claimed_level(prop):
+    """the level this check claims in MANIFEST.json (the evidence has to describe that level)"""
+    try:
+        for c in json.load(open(os.path.join(ROOT, 'MANIFEST.json')))['checks']:
+            if c['property_id'] == prop:
+                return c.get('level_claimed', {}).get('category', 'proof')
+    except (OSError, ValueError, KeyError):
+        pass
+    return 'proof'
+
 def finish(run, level_text, rule, search=None):
     """Prints KNOWN-FINDING / VIOLATION lines, writes evidence, returns the exit code."""
     os.makedirs(EVIDENCE, exist_ok=True)
@@ -382,7 +392,7 @@ def finish(run, level_text, rule, search=None):
         'property_id': run.prop,
         'tier': run.tier,
         'seed': run.seed,
-        'level': 'proof',
+        'level': _claimed_level(run.prop),
         'coverage': cov,
         'assumptions': TRUSTED_BASE + run.notes,
         'wall_s': round(time.time() - run.t0, 2),
